@@ -87,6 +87,27 @@ def _collect(cls_node: ast.ClassDef, prefix=''):
     return members, nested
 
 
+def _inline_module_functions(tree: ast.Module, cls_node: ast.ClassDef):
+    """helpers of a runtime copy that were written as functions of the module (beside the class) are analysed in place, in the
+    members that call them"""
+    fns = {st.name for st in tree.body if isinstance(st, ast.FunctionDef)}
+    if not fns:
+        return
+    from .inline import inline_methods, module_resolver
+    resolve = module_resolver(tree)
+
+    def visit(cls):
+        for i, st in enumerate(cls.body):
+            if isinstance(st, ast.FunctionDef):
+                if any(isinstance(c, ast.Call) and isinstance(c.func, ast.Name) and c.func.id in fns for c in ast.walk(st)):
+                    new = inline_methods(st, resolve, depth=3)
+                    ast.fix_missing_locations(new)
+                    cls.body[i] = new
+            elif isinstance(st, ast.ClassDef):
+                visit(st)
+    visit(cls_node)
+
+
 def _imports(tree: ast.Module):
     out = {}
     for st in tree.body:
@@ -113,6 +134,7 @@ class RuntimeModel:
         base = [c for c in cands if c.name == BASE_CLASS] or cands
         if len(base) != 1:
             raise AnalysisError('R', f'cannot identify the runtime base class in {BASE_MODULE}')
+        _inline_module_functions(bm.tree, base[0])
         self.base = RuntimeCopy('base', str(bm.path.relative_to(src.repo)), base[0], bm.tree)
         self.base.members, self.base.nested = _collect(base[0])
         self.base.imports = _imports(bm.tree)
@@ -140,6 +162,7 @@ class RuntimeModel:
         g = [c for c in gen if c.name == GENERATED_CLASS] or gen
         if len(g) != 1:
             raise AnalysisError('R', 'cannot identify the generated class in the class template')
+        _inline_module_functions(tree, g[0])
         # the template constant starts on the line of its opening quotes
         self.template = RuntimeCopy('template', str(cm.path.relative_to(src.repo)), g[0], tree,
                                     line_offset=node.lineno - 1)
